@@ -43,6 +43,7 @@ WHITELIST = [
     dict(cls=None, fn="mem_put_le24"),
     dict(cls=None, fn="ans_write_end"),
     dict(cls="RAnsDecoder", fn="read_init", targs=[12]),
+    dict(cls=None, fn="ans_read_init"),
     dict(cls=None, fn="DecodeVarintUnsigned", params=["int", "unsigned int *", "draco::DecoderBuffer *"], suffix="_depthCheck_u32",
          slice=dict(scope="body", first_decl="max_depth", count=2)),
     dict(cls=None, fn="DecodeVarintUnsigned", params=["int", "unsigned long *", "draco::DecoderBuffer *"], suffix="_depthCheck_u64",
@@ -50,6 +51,10 @@ WHITELIST = [
     dict(cls=None, fn="EncodeVarint", params=["unsigned int", "draco::EncoderBuffer *"], suffix="_u32"),
     dict(cls=None, fn="EncodeVarint", params=["unsigned long", "draco::EncoderBuffer *"], suffix="_u64"),
     dict(cls="RAnsSymbolEncoder", fn="EncodeTable", suffix="_sizeClass", slice=dict(first_decl="num_extra_bytes", count=2)),
+    dict(cls="MeshSequentialDecoder", fn="DecodeConnectivity", suffix="_indexWidth",
+         chain=dict(var="num_points", inputs=["bitstream_version"])),
+    dict(cls="MeshSequentialEncoder", fn="EncodeConnectivity", suffix="_indexWidth",
+         chain=dict(var="num_points", inputs=["num_points"])),
     dict(cls="OctahedronToolBox", fn="IsInDiamond"),
     dict(cls="OctahedronToolBox", fn="InvertDiamond"),
     dict(cls="OctahedronToolBox", fn="ModMax"),
@@ -95,6 +100,8 @@ TU_TEXT = """\
 #include "draco/core/varint_encoding.h"
 #include "draco/core/varint_decoding.h"
 #include "draco/core/draco_types.cc"
+#include "draco/compression/mesh/mesh_sequential_decoder.cc"
+#include "draco/compression/mesh/mesh_sequential_encoder.cc"
 static_assert(std::is_same<int8_t, signed char>::value && std::is_same<uint8_t, unsigned char>::value, "");
 static_assert(std::is_same<int16_t, short>::value && std::is_same<uint16_t, unsigned short>::value, "");
 static_assert(std::is_same<int32_t, int>::value && std::is_same<uint32_t, unsigned int>::value, "");
@@ -383,6 +390,9 @@ class Index:
                 stack.append((c, n))
 
     def class_of(self, decl):
+        if decl.get("parentDeclContextId") in self.byid and \
+                self.byid[decl["parentDeclContextId"]].get("kind") in ("CXXRecordDecl", "ClassTemplateSpecializationDecl"):
+            return self.byid[decl["parentDeclContextId"]]
         p = self.parent.get(decl["id"])
         while p is not None and p.get("kind") not in ("CXXRecordDecl", "ClassTemplateSpecializationDecl"):
             p = self.parent.get(p.get("id"))
@@ -408,6 +418,9 @@ class Index:
                     if not any(c.get("kind") == "TemplateArgument" for c in n.get("inner", [])):
                         continue
                     par = self.parent.get(par.get("id"))
+                if (par is None or par.get("kind") not in ("CXXRecordDecl", "ClassTemplateSpecializationDecl")) and \
+                        n.get("parentDeclContextId") in self.byid:
+                    par = self.byid[n["parentDeclContextId"]]      # out-of-line definition
                 if par is None or par.get("name") != cls:
                     continue
                 if par.get("kind") == "CXXRecordDecl":
@@ -618,9 +631,11 @@ class Translator:
         try:
             w = self.wl_entry(decl)
             ft = FuncTranslator(self, decl, pointwise=bool(w.get("pointwise")), suffix=w.get("suffix", ""),
-                                lazy_struct=bool(w.get("slice")))
+                                lazy_struct=bool(w.get("slice") or w.get("chain")))
             if w.get("slice"):
                 ft.select_slice(w["slice"])
+            if w.get("chain"):
+                ft.select_chain(w["chain"])
             info = ft.run()
         finally:
             self.in_progress.discard(i)
@@ -677,6 +692,9 @@ class FuncTranslator:
         self.tr, self.ix, self.decl, self.pointwise = tr, tr.ix, decl, pointwise
         self.suffix = suffix
         self.slice = None
+        self.chain = False
+        self.abs_inputs = {}
+        self.slice_free = {}
         self.cls = self.ix.class_of(decl)
         self.need_input = set()     # out locations that must also be inputs
         self.body = [c for c in decl.get("inner", []) if c.get("kind") == "CompoundStmt"][0]
@@ -752,6 +770,75 @@ class FuncTranslator:
             self.struct_cls = self.tr.struct_of(self.cls)
         self.slice_ret = self.ret_ct
         self.ret_ct = self.ret_ct if _contains(wrapper, lambda n: n.get("kind") == "ReturnStmt") else CT("void")
+
+    def select_chain(self, spec):
+        """the decision skeleton of an `if / else if / …` chain: the function that maps the variables of the
+        conditions to the ordinal of the branch that is taken (0, 1, …; the final `else` or fall-through is the last
+        ordinal).  The chain is the first `if` whose condition is `<var> < literal`, where `<var>` is a variable or a
+        call of a zero-argument member function of that name; calls of the zero-argument member functions listed in
+        `inputs` are inputs of the skeleton (they are assumed to be pure getters)."""
+        var = spec["var"]
+        self.abs_inputs = {}
+        abs_names = set(spec.get("inputs", []))
+
+        def is_var(x):
+            x = _strip_casts(x)
+            if x.get("kind") == "DeclRefExpr" and x["referencedDecl"].get("name") == var:
+                return True
+            return x.get("kind") == "CXXMemberCallExpr" and x["inner"][0].get("name") == var and len(x["inner"]) == 1
+
+        found = []
+
+        def walk(x):
+            if found:
+                return
+            if x.get("kind") == "IfStmt":
+                c = _strip_casts(x["inner"][0])
+                if c.get("kind") == "BinaryOperator" and c.get("opcode") == "<" and is_var(c["inner"][0]) and \
+                        _strip_casts(c["inner"][1]).get("kind") == "IntegerLiteral":
+                    found.append(x)
+                    return
+            for ch in x.get("inner", []) or []:
+                if isinstance(ch, dict):
+                    walk(ch)
+        walk(self.body)
+        if not found:
+            raise XlateError(f"chain: no `if ({var} < literal)` found")
+        conds, node = [], found[0]
+        while node is not None and node.get("kind") == "IfStmt":
+            if node.get("hasInit") or node.get("hasVar"):
+                raise XlateError("chain: if with init/condition variable")
+            conds.append(node["inner"][0])
+            node = node["inner"][2] if len(node["inner"]) > 2 else None
+        ity = {"qualType": "int"}
+
+        def ret(i):
+            return {"kind": "CompoundStmt", "inner": [{"kind": "ReturnStmt", "inner": [
+                {"kind": "IntegerLiteral", "value": str(i), "type": ity}]}]}
+        tree = ret(len(conds))
+        for i in range(len(conds) - 1, -1, -1):
+            tree = {"kind": "IfStmt", "inner": [conds[i], ret(i), tree]}
+        inside = set()
+        self.slice_free = {}
+
+        def uses(x):
+            if x.get("kind") == "CXXMemberCallExpr" and len(x["inner"]) == 1 and x["inner"][0].get("name") in abs_names:
+                self.abs_inputs.setdefault(x["inner"][0]["name"], node_type(x))
+                return
+            if x.get("kind") == "DeclRefExpr" and x["referencedDecl"].get("kind") in ("VarDecl", "ParmVarDecl") and \
+                    x.get("nonOdrUseReason") != "constant":
+                self.slice_free.setdefault(x["referencedDecl"]["id"], (x["referencedDecl"].get("name"), node_type(x)))
+            for c in x.get("inner", []) or []:
+                if isinstance(c, dict):
+                    uses(c)
+        for c in conds:
+            uses(c)
+        self.body = {"kind": "CompoundStmt", "inner": [tree]}
+        self.parms = []
+        self.chain = True
+        self.uses_this = False
+        self.struct_cls = None
+        self.ret_ct = CT("int", signed=True, bits=32)
 
     def _ret_type(self):
         """the result type: the (desugared) type of the returned expressions — clang converts every returned
@@ -933,7 +1020,13 @@ class FuncTranslator:
                     ctx.vals[loc] = f"{ln}.{lean_ident(f)}"
             else:
                 self.fail(f"parameter `{nm}` of type {t!r} is not supported")
-        if self.slice is not None:
+        if self.chain:
+            for nm, t in self.abs_inputs.items():
+                ln = self._alloc(nm)
+                self.abs_names = getattr(self, "abs_names", {})
+                self.abs_names[nm] = (ln, CT(t.kind, t.signed, t.bits))
+                info.params.append((ln, t.lean(), ("val", -1)))
+        if self.slice is not None or self.chain:
             for vid, (nm, t) in self.slice_free.items():
                 if t.kind not in ("int", "bool"):
                     self.fail(f"slice: free variable `{nm}` of type {t!r}")
@@ -2040,6 +2133,9 @@ class FuncTranslator:
                         # draco::VectorD<T, N>(const VectorD<U, N> &): component-wise `T(src[i])` (core/vector_d.h)
                         return f"({self.convert(a + '.1', at.to, t.to, n)}, {self.convert(a + '.2', at.to, t.to, n)})", t
             self.fail("constructor call", n)
+        if k == "CXXMemberCallExpr" and self.chain and len(n["inner"]) == 1 and \
+                n["inner"][0].get("name") in getattr(self, "abs_names", {}):
+            return self.abs_names[n["inner"][0]["name"]]
         if k in ("CallExpr", "CXXMemberCallExpr", "CXXOperatorCallExpr"):
             return self.call(n, ctx)
         self.fail("unsupported expression", n)
@@ -2176,6 +2272,13 @@ class FuncTranslator:
 def _strip(n):
     while n.get("kind") in ("ImplicitCastExpr", "ParenExpr", "ExprWithCleanups", "MaterializeTemporaryExpr") and \
             (n.get("kind") != "ImplicitCastExpr" or n.get("castKind") in ("LValueToRValue", "NoOp", "UncheckedDerivedToBase", "DerivedToBase")):
+        n = n["inner"][0]
+    return n
+
+
+def _strip_casts(n):
+    while n.get("kind") in ("ImplicitCastExpr", "ParenExpr", "ExprWithCleanups", "MaterializeTemporaryExpr",
+                            "CXXStaticCastExpr", "CStyleCastExpr"):
         n = n["inner"][0]
     return n
 
